@@ -178,7 +178,7 @@ def checker_factory(modname):
                 d = native_failure(modname, gname, x, opts, today)
                 ok = False
                 sw.finding('getter misbehaves', '%s: %s' % (gname, what.split(' (')[0]), input=x, opts=opts, getter=gname, today=today,
-                           approx=ctx.approx, real=d, reproduced=d is not None)
+                           approx=ctx.approx or bool(getattr(ctx, 'soft', None)), real=d, reproduced=d is not None)
             sw.obligations.append((oid, 'proved' if ok else 'refuted', '%d paths' % len(paths)))
         if gs and not sw.samples:
             sw.samples.append(dict(n=n, getters=[g for g, _ in gs]))
